@@ -120,6 +120,15 @@ pub fn build_fast_import_cmd(opts: &Options) -> Command {
     // Export marks so we can build commit-map without in-stream get-mark
     if let Ok(gd) = git_dir(&opts.target) {
         let marks_path = Path::new(&gd).join("filter-repo").join("target-marks");
+        // fast-import runs with `-C <target>`: a relative path would be resolved against the target
+        // directory instead of ours.
+        let marks_path = if marks_path.is_relative() {
+            std::env::current_dir()
+                .map(|cwd| cwd.join(&marks_path))
+                .unwrap_or(marks_path)
+        } else {
+            marks_path
+        };
         cmd.arg(format!("--export-marks={}", marks_path.to_string_lossy()));
     }
     cmd.stdin(Stdio::piped());
